@@ -29,6 +29,10 @@ type c12World struct {
 	val    map[string]int64
 	active map[string]bool
 	nfired map[string]int
+	// a registration made from inside a firing callback (applied to the ghost after the tick's check)
+	rearmDue     int
+	rearmVal     int64
+	rearmPending bool
 }
 
 func c12New(n int) *c12World {
@@ -95,6 +99,9 @@ func (w *c12World) doTick(keys []string) {
 			rt.Assert(cnt == 1, "a timer due at this tick fires exactly once at this tick")
 			rt.Assert(cnt != 1 || got == w.val[k], "a firing timer carries the most recently set value")
 			w.active[k] = false
+			if w.rearmPending && k == "a" {
+				w.due[k], w.val[k], w.active[k], w.rearmPending = w.rearmDue, w.rearmVal, true, false
+			}
 		} else {
 			rt.Assert(cnt == 0, "no timer fires at a tick other than its due tick (early, late, removed or twice)")
 		}
@@ -295,4 +302,46 @@ func Verif_C12_Drain() {
 	for _, slot := range w.tw.slots {
 		rt.Assert(slot.Len() == 0, "after Drain no entry is left in the wheel")
 	}
+}
+
+//verif:entry tier=quick,thorough gosync steps=4000000 cover=rearmed,fired,removed
+//verif:doc Rearm: the periodic-timer idiom - when key a fires, its callback sets a again (new value, delay in [1, 2n+1] intervals); afterwards a is optionally removed or moved; slots n=2 (quick) / 2..3 (thorough), pre-ticks < n: the re-armed timer fires exactly once at its new due tick with the new value, a removed one never fires.
+func Verif_C12_Rearm() {
+	n := 2
+	if rt.Tier() > 0 {
+		n = 2 + rt.Choose("slots", 2)
+	}
+	maxSteps := 2*n + 1
+	w := c12New(n)
+	keys := []string{"a"}
+	rearmed := false
+	inner := w.tw.execute
+	w.tw.execute = func(k, v any) {
+		inner(k, v)
+		if !rearmed {
+			rearmed = true
+			rt.Cover("rearmed")
+			// the callback runs while the wheel processes tick w.tick: the ghost's bookkeeping for the fired
+			// timer is done in doTick after onTick returns, so the new registration is recorded there
+			d, steps := c12Delay("d2", maxSteps)
+			w.tw.setTask(&timingEntry{baseEntry: baseEntry{delay: d, key: "a"}, value: int64(2)})
+			w.rearmDue, w.rearmVal, w.rearmPending = w.tick+steps, 2, true
+		}
+	}
+	for i, pre := 0, rt.Choose("preticks", n); i < pre; i++ {
+		w.doTick(keys)
+	}
+	w.set("a", 1, maxSteps, "d1")
+	for i := 0; i < maxSteps+1 && !rearmed; i++ {
+		w.doTick(keys)
+	}
+	rt.Assert(rearmed, "the first timer fires")
+	switch rt.Choose("after", 3) {
+	case 1:
+		w.remove("a")
+		rt.Cover("removed")
+	case 2:
+		w.move("a", maxSteps, "dm")
+	}
+	w.finish(keys, maxSteps+1)
 }
